@@ -108,6 +108,156 @@ def unit_gw(ctx):
     return {"lines": open(res).read().splitlines(), "inputs": hist}
 
 
+
+# ------------------------------------------------------------------ skeleton (L3)
+
+def unit_skeleton(pattern):
+    """Regenerate the lock / call-site skeleton from /repo and compare the lines matching
+    `pattern` with coq/skeleton.expected."""
+    import re
+
+    def fn(ctx):
+        rc, out, _ = core.run("%s -repo %s" % (ctx.bin("skeleton"), core.REPO))
+        if rc != 0:
+            return {"lines": [], "error": "skeleton failed: " + out[-2000:]}
+        rx = re.compile(pattern)
+        got = [l for l in out.splitlines() if rx.search(l)]
+        exp = [l for l in open(os.path.join(core.COQ, "skeleton.expected")).read().splitlines() if rx.search(l)]
+        lines = []
+        for l in sorted(set(exp) - set(got)):
+            lines.append("MISMATCH SKELETON missing :: " + l)
+        for l in sorted(set(got) - set(exp)):
+            lines.append("MISMATCH SKELETON unexpected :: " + l)
+        lines.append("STAT evaluations=%d nontrivial=%d" % (len(got), len(got)))
+        lines.append("SUMMARY skeleton facts=%d expected=%d differing=%d" % (len(got), len(exp), len(lines) - 1))
+        if got:
+            lines.append("SAMPLE " + got[0])
+        return {"lines": lines, "inputs": os.path.join(core.COQ, "skeleton.expected")}
+    return fn
+
+
+# ------------------------------------------------------------------ util / txn / match / cli / client
+
+def unit_util(ctx):
+    d = core.shared_dir("util", ctx.tier, ctx.seed)
+    res, obs = os.path.join(d, "util.res"), os.path.join(d, "util.obs")
+    if not cached(res):
+        n = budget(ctx, 300, 3000)
+        full = "-full" if ctx.tier in ("thorough", "escalate") else ""
+        rc, out, _ = core.run("%s -seed %d -n %d %s > %s" % (ctx.bin("drv_util"), ctx.seed, n, full, obs))
+        if rc != 0:
+            return {"lines": [], "error": "drv_util failed: " + out[-2000:]}
+        rc, out, _ = core.run("%s chk-util %s > %s.tmp && mv %s.tmp %s" % (core.DRIVER, obs, res, res, res))
+        if rc != 0:
+            return {"lines": [], "error": "chk-util failed: " + out[-2000:]}
+    return {"lines": open(res).read().splitlines(), "inputs": obs}
+
+
+def run_restarting(binary, hist, trace, what):
+    """Run a synctest driver; restart after a history whose code under test crashed the process."""
+    start = 0
+    open(trace, "w").close()
+    for _ in range(200):
+        rc, out, _ = core.run("%s -hist %s -out %s -start %d" % (binary, hist, trace, start), timeout=3000)
+        if rc == 0:
+            return None
+        last = None
+        with open(trace) as f:
+            for line in f:
+                if line.startswith("H "):
+                    last = int(line.split()[1])
+        if last is None or last < start:
+            return "%s failed before running any history: %s" % (what, out[-2000:])
+        msg = "unknown"
+        for ln in out.splitlines():
+            if ln.startswith("panic:") or "fatal error" in ln:
+                msg = ln.strip().replace(" ", "_")
+                break
+        with open(trace, "a") as f:
+            f.write("X PANIC process-crashed:%s\nEND\n" % msg)
+        start = last + 1
+    return what + " crashed too many times"
+
+
+def unit_txn(ctx):
+    d = core.shared_dir("txn", ctx.tier, ctx.seed)
+    res, hist, trace = os.path.join(d, "txn.res"), os.path.join(d, "txn.hist"), os.path.join(d, "txn.impl")
+    if not cached(res):
+        n = budget(ctx, 2000, 40000)
+        rc, out, _ = core.run("%s gen-txn %d %d %s" % (core.DRIVER, ctx.seed, n, hist))
+        if rc != 0:
+            return {"lines": [], "error": "gen-txn failed: " + out[-2000:]}
+        err = run_restarting(ctx.bin("drv_txn.test"), hist, trace, "drv_txn")
+        if err:
+            return {"lines": [], "error": err}
+        rc, out, _ = core.run("%s cmp-txn %s %s > %s.tmp && mv %s.tmp %s" % (core.DRIVER, hist, trace, res, res, res))
+        if rc != 0:
+            return {"lines": [], "error": "cmp-txn failed: " + out[-2000:]}
+    return {"lines": open(res).read().splitlines(), "inputs": hist}
+
+
+def unit_match(ctx):
+    d = core.shared_dir("match", ctx.tier, ctx.seed)
+    res, obs = os.path.join(d, "match.res"), os.path.join(d, "match.obs")
+    if not cached(res):
+        fl, nl = budget(ctx, (3, 4), (4, 5))
+        rc, out, _ = core.run("%s -flevels %d -nlevels %d > %s" % (ctx.bin("drv_match"), fl, nl, obs))
+        if rc != 0:
+            return {"lines": [], "error": "drv_match failed: " + out[-2000:]}
+        rc, out, _ = core.run("%s chk-match %s > %s.tmp && mv %s.tmp %s" % (core.DRIVER, obs, res, res, res))
+        if rc != 0:
+            return {"lines": [], "error": "chk-match failed: " + out[-2000:]}
+    return {"lines": open(res).read().splitlines(), "inputs": obs}
+
+
+def unit_cli(ctx):
+    d = core.shared_dir("cli", ctx.tier, ctx.seed)
+    res, obs = os.path.join(d, "cli.res"), os.path.join(d, "cli.obs")
+    if not cached(res):
+        n = budget(ctx, 8, 60)
+        bindir = os.path.join(d, "bin")
+        os.makedirs(bindir, exist_ok=True)
+        for t in ("bisquitt", "bisquitt-pub", "bisquitt-sub"):
+            core.run("cp %s %s" % (ctx.bin("cmd-" + t), os.path.join(bindir, t)))
+        work = os.path.join(d, "work")
+        os.makedirs(work, exist_ok=True)
+        rc, out, _ = core.run("%s -bindir %s -seed %d -n %d -work %s -par 12 > %s 2> %s.err" % (
+            ctx.bin("drv_cli"), bindir, ctx.seed, n, work, obs, obs), timeout=3000)
+        core.run("rm -rf %s %s" % (work, bindir))
+        if rc != 0:
+            return {"lines": [], "error": "drv_cli failed: " + open(obs + ".err").read()[-2000:]}
+        rc, out, _ = core.run("%s chk-cli %s > %s.tmp && mv %s.tmp %s" % (core.DRIVER, obs, res, res, res))
+        if rc != 0:
+            return {"lines": [], "error": "chk-cli failed: " + out[-2000:]}
+    return {"lines": open(res).read().splitlines(), "inputs": obs}
+
+
+def unit_client(ctx):
+    d = core.shared_dir("client", ctx.tier, ctx.seed)
+    res, hist, trace = os.path.join(d, "cl.res"), os.path.join(d, "cl.hist"), os.path.join(d, "cl.impl")
+    if not cached(res):
+        n = budget(ctx, 3000, 60000)
+        rc, out, _ = core.run("%s gen-cl %d %d %s" % (core.DRIVER, ctx.seed, n, hist))
+        if rc != 0:
+            return {"lines": [], "error": "gen-cl failed: " + out[-2000:]}
+        err = run_restarting(ctx.bin("drv_client.test"), hist, trace, "drv_client")
+        if err:
+            return {"lines": [], "error": err}
+        rc, out, _ = core.run("%s cmp-cl %s %s > %s.tmp && mv %s.tmp %s" % (core.DRIVER, hist, trace, res, res, res))
+        if rc != 0:
+            return {"lines": [], "error": "cmp-cl failed: " + out[-2000:]}
+    return {"lines": open(res).read().splitlines(), "inputs": hist}
+
+
+CL_RULE = ("model-guided random walks of the client library (ocaml/gen_cl.ml: API calls of every kind, answers of a scripted "
+           "gateway to the pending transactions with losses, unsolicited/unknown/malformed datagrams, broker messages on "
+           "subscribed topics incl. QoS 2 with repeated PUBLISH/PUBREL, time advances around timer deadlines), executed on the "
+           "real client.Client under testing/synctest and compared output-by-output with the extracted model; non-trivial = "
+           "the implementation produced an output for the event")
+CL_ASSUME = ["KeepAlive = 0 in generated histories (the keep-alive loop is exercised separately)",
+             "event-atomic driving; API returns and EXIT of one instant are compared as a set",
+             "histories with two timers at one virtual instant are not generated"]
+
 GW_RULE = ("model-guided random walks of one gateway session (ocaml/gen_gw.ml: 4 profiles - general, connect/auth "
            "exchange, sleep cycles, broker publishes with retries; client datagrams, broker packets, virtual-time "
            "advances around timer deadlines, every termination cause), executed on the real handler1 under "
@@ -151,6 +301,87 @@ PROPS = {
                 "the model, ReadPacket of the result compared with the original; all 65 536 short topic IDs; "
                 "non-trivial = the packet satisfies wf_pkt (legal ranges)",
         "assumptions": ["packets are built by the exported constructors and setters, as library users do"],
+    },
+    "C22": {
+        "theorems": ["C22_decoded_reflects_datagram", "C22_checker_sound"],
+        "drivers": ["drv_codec"],
+        "units": [Unit("drv_codec", unit_codec)],
+        "mismatch_kinds": [r"decode", r"repack", r"unparsable", r"driver error", r"bad D line"],
+        "rule": "every datagram the decoder accepts among: all datagrams of length 0-2, the structural stream (type bytes x "
+                "both header forms incl. long-form headers announcing 0-300, flag bytes 0-255), encodings of constructor-built "
+                "packets and their mutations, random strings; the reference parser and the re-encoding rule are evaluated on "
+                "the implementation's decoded fields and on its own Pack output; non-trivial = decodes successfully",
+        "assumptions": ["ReadPacket is driven through a bytes.Reader under recover()"],
+    },
+    "C29": {
+        "theorems": ["C29_any_schedule_is_sequential", "C29_sequence", "C29_distinct_in_cycle", "C29_store_is_two_maps"],
+        "drivers": ["drv_util", "skeleton"],
+        "units": [Unit("drv_util", unit_util),
+                  Unit("lock-skeleton", unit_skeleton(r"^LOCK (util/id_sequence|transactions/transaction_store)"))],
+        "rule": "IDSequence: all ranges of width <= 7 at several offsets for 3 cycles, random ranges near 65535 (thorough: the full "
+                "ranges 1..65535 and 1..65534), concurrent callers (2/4/8 goroutines) whose results must be the sequential "
+                "prefix as a multiset; TransactionStore: random sequential op sequences over both key spaces and concurrent "
+                "histories checked for linearizability with porcupine (supporting evidence); lock skeleton of both types "
+                "regenerated from source",
+        "assumptions": ["atomicity of a method whose whole body runs under Lock()/defer Unlock() (Go mutex semantics)"],
+    },
+    "C18": {
+        "theorems": ["C18_completes_at_most_once", "C18_done_is_final", "C18_done_iff_completion_ran_once"],
+        "drivers": ["drv_txn.test", "skeleton"],
+        "units": [Unit("drv_txn", unit_txn),
+                  Unit("lock-skeleton", unit_skeleton(r"^(LOCK|GO) transactions/(transaction_base|retry_transaction|timed_transaction)"))],
+        "rule": "random histories of Proceed/Success/Fail/callback-failure/cancel/time advances (retry counts 0-5, delays 1 ms - "
+                "10 s, offsets around every deadline) on the real RetryTransaction and TimedTransaction under synctest, compared "
+                "with the model event by event; the lock skeleton of transactions/*.go is regenerated from source (it carries "
+                "the quantifier over schedules); non-trivial = the event produced an output",
+        "assumptions": ["interleavings are sequences of mutex-protected regions (Go mutex semantics); the Go memory model and the "
+                        "race detector are outside the model; client/sleep_transaction.go timers are not covered (known finding)"],
+    },
+    "C19": {
+        "theorems": ["C19_retry_budget_exact", "C19_progress_resets", "C19_quiet_before_delay", "C19_time_additive", "C19_timed_exact"],
+        "drivers": ["drv_txn.test"],
+        "units": [Unit("drv_txn", unit_txn)],
+        "rule": "as C18: virtual timestamps of retry callbacks and completion compared exactly with the model",
+        "assumptions": ["Go timers fire at their deadline on the synctest fake clock"],
+    },
+    "C27": {
+        "theorems": ["C27_match_is_mqtt_matching", "C27_only_matching_callbacks", "C27_unsubscribed_not_invoked"],
+        "drivers": ["drv_match", "drv_client.test"],
+        "units": [Unit("drv_match", unit_match), Unit("drv_client", unit_client)],
+        "mismatch_kinds": [r"match", r"^CB", r"EXTRA CB", r"MISSING CB", r"PANIC", r"MISSING-"],
+        "rule": "client.match on ALL filters of <= 3 levels x names of <= 4 levels over {a,b,'',+,#} (thorough: 4 x 5 levels), and "
+                "client histories with subscriptions, unsubscriptions and broker messages on matching and non-matching topics",
+        "assumptions": CL_ASSUME,
+    },
+    "C30": {
+        "theorems": ["C30_same_in_every_tool", "C30_file_overridden_by_options", "C30_later_options_win", "C30_option_without_client"],
+        "drivers": ["drv_cli", "skeleton", "cmd-bisquitt", "cmd-bisquitt-pub", "cmd-bisquitt-sub", "drv_topics"],
+        "units": [Unit("drv_cli", unit_cli), Unit("call-site-skeleton", unit_skeleton(r"^CLI ")), Unit("drv_topics", unit_topics)],
+        "mismatch_kinds": [r"gateway topic", r"predefined id", r"short topic", r"plain topic", r"configuration", r"driver",
+                           r"SKELETON", r"GetTopic"],
+        "rule": "the three real binaries run over loopback against a fake gateway / fake broker with generated YAML files and "
+                "--predefined-topic option lists (overlapping, later overriding earlier, 2- and 3-field forms, malformed ones); "
+                "observed: the topic ID on the wire (pub/sub) and the MQTT topic name at the broker (gateway), exit status",
+        "assumptions": ["yaml.v3 and urfave/cli parsing are exercised by running the binaries, not modelled"],
+    },
+    "C31": {
+        "theorems": ["C31_gateway_refuses_plaintext_auth", "C31_client_tools_refuse_plaintext_user"],
+        "drivers": ["drv_cli", "skeleton", "cmd-bisquitt", "cmd-bisquitt-pub", "cmd-bisquitt-sub", "drv_client.test"],
+        "units": [Unit("drv_cli", unit_cli), Unit("guard-skeleton", unit_skeleton(r"^GUARD ")), Unit("drv_client", unit_client)],
+        "mismatch_kinds": [r"start-up", r"empty user", r"driver", r"SKELETON", r"SN:(Auth|Connect)", r"PANIC", r"MISSING-"],
+        "rule": "all 16 combinations of auth|user / password / dtls(+self-signed) / insecure, each by flag and by environment "
+                "variable, for the three binaries (starts = UDP port bound or first datagram sent); client histories with and "
+                "without a configured user (AUTH must follow every CONNECT, retransmitted ones included)",
+        "assumptions": CL_ASSUME + ["urfave/cli flag/env handling is exercised, not modelled"],
+    },
+    "C32": {
+        "theorems": ["C32_routing_consistent"],
+        "drivers": ["drv_topics", "drv_codec", "drv_cli", "cmd-bisquitt", "cmd-bisquitt-pub", "cmd-bisquitt-sub"],
+        "units": [Unit("drv_topics", unit_topics), Unit("drv_codec", unit_codec), Unit("drv_cli", unit_cli)],
+        "mismatch_kinds": [r"GetTopic", r"ShortTopic", r"chk_short", r"gateway topic", r"predefined id", r"short topic"],
+        "rule": "predefined lookups on overlapping configurations, all 65 536 short topic IDs, and the real bisquitt-pub/-sub "
+                "against the real gateway's resolution of the same configuration (drv_cli cross-check)",
+        "assumptions": ["client and gateway are given the same configuration and client ID"],
     },
     "C14": {
         "theorems": ["C14_step", "C14_histories", "C14_checker_sound"],
